@@ -47,8 +47,11 @@ M = [
   "            if view_arr is None or view_arr.base is not arr:", "            if view_arr is None:",
   "stale waiting entries are honoured again (needs id reuse to manifest)"),
  ("C08-stale-count-fix-reverted", "C08", "src/mygrad/_utils/lock_management.py",
-  "    if not array_is_tracked(arr):\n        # e.g. a natively read-only array. A lock-count that was left behind\n        # under this ID by an array that no longer exists must not be applied\n        # to it.\n        return\n", "",
-  "a stale lock count of a dead array is applied to a natively read-only array with the same id (fix 13 reverted; needs id reuse)"),
+  "    if tracked_ref is not None and tracked_ref() is None:\n", "    if False:\n",
+  "a stale lock count of a dead array is applied to a natively read-only array with the same id (fixes 13/15 reverted; needs id reuse)"),
+ ("C08-stale-count-guard-too-wide", "C08", "src/mygrad/_utils/lock_management.py",
+  "    if tracked_ref is not None and tracked_ref() is None:\n", "    if tracked_ref is None or tracked_ref() is None:\n",
+  "the first version of fix 13: every array without a live tracker entry is skipped on release (leaks a lock when the cyclic GC runs between the tracked-check and the increment)"),
  ("C09-no-invalid-backprop-check", "C09", "src/mygrad/operation_base.py",
   "            if not var._ops:\n", "            if not var._ops and var._creator is not None:\n",
   "cleared leaves no longer trigger InvalidBackprop"),
